@@ -883,7 +883,8 @@ class Outputs:
 
                 partial_filenames[out_format] = filename.name
 
-            all_filenames[valid_name] = partial_filenames
+            # Note: the same bucket may be listed in several entries
+            all_filenames.setdefault(valid_name, {}).update(partial_filenames)
 
         datatree: "xr.DataTree" = _dict_to_datatree(all_filenames)
         return datatree
